@@ -16,7 +16,7 @@ from . import common
 
 ID = "C09"
 RUNS = {"quick": 7000, "thorough": 300000}
-TIME = {"quick": 75, "thorough": 1500}
+TIME = {"quick": 150, "thorough": 1500}
 OPS = ("get_profile", "get_step", "get_elected", "get_eliminated", "get_remaining", "get_ranking", "get_status_df", "len", "str")
 REPLAYING = ("get_profile", "get_step")
 RANKED_RULES = ("STV", "STV", "IRV", "SequentialRCV", "Plurality", "SNTV", "Borda", "TopTwo", "Alaska", "DominatingSets", "CondoBorda",
